@@ -422,6 +422,12 @@ func runApi(steps []string) string {
 // generator
 
 func smallTyVal(r *hx.Rng) (string, string) {
+	if r.Chance(1, 8) {
+		// a recursive fixture type (the type cache builds it through a placeholder entry)
+		name := recNames[r.Intn(len(recNames))]
+		vt, it := genRec(r, name, r.Intn(4))
+		return name + strconv.Itoa(len(specEncode(it))+8), vt
+	}
 	for {
 		t := genTy(r, 2)
 		v := genVal(r, t, false, 1)
